@@ -271,6 +271,8 @@ def l6(ctx):
     nsites = 0
     for mname in ("xandikos.store.git", "xandikos.store", "xandikos.store.vdir", "xandikos.store.index", "xandikos.store.config"):
         for fi in ctx.P.funcs_in_module(mname):
+            if ctx.absorbed(fi):
+                continue
             cfg = ctx.cfg(fi)
             du = None
             for n in cfg.stmt_nodes():
